@@ -207,6 +207,19 @@ def valOk (env : Env) (O : Oracle) : Field → PVal → Bool
          | some V => V.render == j5 && V.complete && decide (V.depth ≤ 10000)
          | none => false)
     | _, _, _, _, _ => false
+  | fld, .anyPb url value ik iroot inner =>
+    -- a `google.protobuf.Any` whose content unmarshals to a non-empty representable message of the
+    -- root its type URL resolves to (the wire bytes are represented by `ik / iroot / inner`)
+    match fld, value, ik with
+    | .any true, [], .inn =>
+      (match inner with
+       | .msg fs => !fs.isEmpty
+       | _ => false) &&
+      (url == anyPrefixB ++ url.drop anyPrefixB.length) &&
+      isValidUtf8 (url.drop anyPrefixB.length) &&
+      (env.resolve (url.drop anyPrefixB.length) == some iroot) &&
+      (valOk env O (.object iroot) inner || valOk env O (.oneof iroot) inner)
+    | _, _, _ => false
   | fld, v =>
     match fld with
     | .scalar k => scalarOk O k v
@@ -259,6 +272,32 @@ def chunksOkList (O : Oracle) : List PVal → Bool
 def chunksOkMap (O : Oracle) : List (Bytes × PVal) → Bool
   | [] => true
   | (_, v) :: rest => v.chunksOk O && chunksOkMap O rest
+end
+
+/-! ## which codec can decode the `Any` values of a message (per VALUE) -/
+
+mutual
+/-- `modeOk p d F v`: a codec with `protoToAny = p`, at `anyDepth = d`, decodes the `Any` values in
+`v`: a j5 `Any` needs the codec without `WithProtoToAny`; a protobuf `Any` needs `WithProtoToAny`,
+fewer than `maxAnyDepth` enclosing `Any` values, and (`F`: the fuel the encoder model runs with, an
+upper bound of the nesting depth of the tree it builds) its encoding must stay within the 10000
+levels of `encoding/json`. A value without `Any` satisfies it for every codec. -/
+def modeOk (p : Bool) (F : Nat) : Nat → PVal → Bool
+  | _, .anyJ5 _ _ _ _ _ _ => !p
+  | d, .anyPb _ _ _ _ inner => p && decide (d < maxAnyDepth) && decide (F ≤ 10000) && modeOk p F (d + 1) inner
+  | d, .msg fs => modeOkF p F d fs
+  | d, .list xs => modeOkL p F d xs
+  | d, .map kvs => modeOkM p F d kvs
+  | _, _ => true
+def modeOkF (p : Bool) (F : Nat) : Nat → List (Nat × PVal) → Bool
+  | _, [] => true
+  | d, (_, v) :: rest => modeOk p F d v && modeOkF p F d rest
+def modeOkL (p : Bool) (F : Nat) : Nat → List PVal → Bool
+  | _, [] => true
+  | d, v :: rest => modeOk p F d v && modeOkL p F d rest
+def modeOkM (p : Bool) (F : Nat) : Nat → List (Bytes × PVal) → Bool
+  | _, [] => true
+  | d, (_, v) :: rest => modeOk p F d v && modeOkM p F d rest
 end
 
 end J5V.Codec
